@@ -122,6 +122,16 @@ FmtInit == << Cnew("N", "n"), Ccreate("NL", 1, "prim", 0), Ccreate("NL", 1, "ip"
               [op |-> "set_dir", x |-> 1, ival |-> 2], [op |-> "set_dir", x |-> 2, ival |-> 3],
               [op |-> "set_dir", x |-> 4, ival |-> 2], [op |-> "set_dir", x |-> 5, ival |-> 1],
               Csettopdef(1, 4), [op |-> "set_name", kind |-> "I", x |-> 1, val |-> "top"] >>
+(* bus nets whose own names end in a bracket group ("q[1]" with bits q[1][0], q[1][1]) next to a sibling bus *)
+(* that differs only inside the brackets                                                                    *)
+FmtInitBr == << Cnew("N", "n"), Ccreate("NL", 1, "prim", 0), Ccreate("NL", 1, "ip", 0), Ccreate("NL", 1, "work", 0),
+              Ccreate("LD", 1, "leaf", 0), Ccreate("LD", 2, "leaf", 0), Ccreate("LD", 2, "mid", 0), Ccreate("LD", 3, "top", 0),
+              Ccreate("DP", 1, "i", 1), Ccreate("DP", 1, "o", 1), Ccreate("DP", 2, "i", 1),
+              Ccreate("DP", 3, "a", 2), Ccreate("DP", 3, "b", 1), Ccreate("DC", 3, "q[1]", 2), Ccreate("DC", 3, "q[0]", 2),
+              Ccreate("DP", 4, "t", 1), Ccreate("DC", 4, "m[2][0]", 3),
+              [op |-> "set_dir", x |-> 1, ival |-> 2], [op |-> "set_dir", x |-> 2, ival |-> 3],
+              [op |-> "set_dir", x |-> 4, ival |-> 2], [op |-> "set_dir", x |-> 5, ival |-> 1],
+              Csettopdef(1, 4), [op |-> "set_name", kind |-> "I", x |-> 1, val |-> "top"] >>
 (* the same cells in ONE library, so that the declaration order inside a library matters *)
 FmtInit1 == << Cnew("N", "n"), Ccreate("NL", 1, "work", 0),
                Ccreate("LD", 1, "leaf", 0), Ccreate("LD", 1, "leafb", 0), Ccreate("LD", 1, "mid", 0), Ccreate("LD", 1, "top", 0),
@@ -145,13 +155,35 @@ NamePool == {"a", "A", "ab", "aB", "a-b", "a_b", "a b", "1a", "_a", "a[0]", "a/b
              "@256:-", "1", "-"}
 NameInit == FmtInit \o << Cchild(4, "u", 3), Cchild(4, "v", 1) >>
                \o [j \in 1..12 |-> Ccreate("DP", 1, "k" \o ToString(j), 1)]      \* twelve more sibling ports on leaf
+(* re-export of a netlist that already carries identifiers: export, then a NEW sibling whose name would get  *)
+(* the identifier an existing sibling holds (a differently spelt name that is made legal the same way, a     *)
+(* case variant, or the very name the existing sibling had when it was exported), in front or at the end,    *)
+(* then export again                                                                                         *)
+ClashPairs == {<<"n/1", "n.1">>, <<"a b", "a_b">>, <<"Foo", "foo">>, <<"ctrl", "ctrl">>}
+ReexportCands(s) ==
+    LET rt == [op |-> "edif_rt", n |-> 1]
+        first(kind, b, old) == << [op |-> "set_name", kind |-> kind, x |-> b, val |-> old], rt >>
+        newSib(kind, id, parent, nm, pos) ==
+            CASE kind = "C" -> << Cnew("C", nm), [op |-> "create", rel |-> "CW", p |-> id, name |-> "", n |-> 0],
+                                  [op |-> "add", rel |-> "DC", p |-> parent, x |-> id, pos |-> pos] >>
+              [] kind = "P" -> << Cnew("P", nm), [op |-> "create", rel |-> "PQ", p |-> id, name |-> "", n |-> 0],
+                                  [op |-> "add", rel |-> "DP", p |-> parent, x |-> id, pos |-> pos] >>
+              [] kind = "I" -> << Cnew("I", nm), [op |-> "set_ref", i |-> id, d |-> 1],
+                                  [op |-> "add", rel |-> "DI", p |-> parent, x |-> id, pos |-> pos] >>
+    IN {LET s1 == ApplySeqX(s, first(g[1], g[2], pr[1]))
+            id == CountOf(s1, g[1]) + 1 IN
+        [op |-> "seq", calls |->
+            first(g[1], g[2], pr[1])
+            \o (IF pr[1] = pr[2] THEN << [op |-> "set_name", kind |-> g[1], x |-> g[2], val |-> pr[1] \o "_v1"] >> ELSE <<>>)
+            \o newSib(g[1], id, ParentOf(s, g[1], g[2]), pr[2], pos) \o << rt >>] :
+        <<g, pr, pos>> \in {<<"C", 2>>, <<"P", 5>>, <<"I", 3>>} \X ClashPairs \X {0, NoPos}}
 NameCands(s) ==
     LET groups == {<<"L", 1, 2>>, <<"D", 2, 3>>, <<"P", 4, 5>>, <<"C", 1, 2>>, <<"I", 2, 3>>}
         many(prefix, len) ==      \* twelve siblings whose long names collide after truncation
             [op |-> "seq", calls |-> [j \in 1..12 |-> [op |-> "set_name", kind |-> "P", x |-> 6 + j,
                                                       val |-> prefix \o ToString(len) \o ":" \o ToString(9 + j)]]
                                       \o << [op |-> "edif_rt", n |-> 1] >>] IN
-    {many("@", 300), many("#", 300), many("#", 257), many("@", 256)} \cup
+    {many("@", 300), many("#", 300), many("#", 257), many("@", 256)} \cup ReexportCands(s) \cup
     {[op |-> "seq", calls |-> << [op |-> "set_name", kind |-> g[1], x |-> g[2], val |-> nm[1]],
                                  [op |-> "set_name", kind |-> g[1], x |-> g[3], val |-> nm[2]],
                                  [op |-> "edif_rt", n |-> 1] >>] :
@@ -173,12 +205,31 @@ VlogInit == << Cnew("N", "n"), Ccreate("NL", 1, "work", 0),
                Csettopdef(1, 3), [op |-> "set_name", kind |-> "I", x |-> 1, val |-> "top"],
                Cchild(2, "l", 1), Cchild(3, "m", 2) >>
 VlogOpts == [order : {"asis", "reversed"}, ansi : BOOLEAN, positional : BOOLEAN, concat : BOOLEAN,
-             escaped : BOOLEAN, comments : BOOLEAN, celldefine : BOOLEAN]
+             escaped : BOOLEAN, comments : BOOLEAN, celldefine : BOOLEAN, grouped : BOOLEAN, escmod : BOOLEAN]
+(* declaration styles: a leaf with two vector ports of one direction and range, instanced with every bit tied *)
+VlogDeclInit == << Cnew("N", "n"), Ccreate("NL", 1, "work", 0),
+               Ccreate("LD", 1, "pair", 0), Ccreate("LD", 1, "top", 0),
+               Ccreate("DP", 1, "p", 2), Ccreate("DP", 1, "q", 2), Ccreate("DP", 1, "r", 1),
+               Ccreate("DC", 1, "p", 2), Ccreate("DC", 1, "q", 2), Ccreate("DC", 1, "r", 1),
+               Ccreate("DP", 2, "t", 2), Ccreate("DP", 2, "u", 2), Ccreate("DP", 2, "v", 1),
+               Ccreate("DC", 2, "t", 2), Ccreate("DC", 2, "u", 2), Ccreate("DC", 2, "v", 1),
+               [op |-> "set_dir", x |-> 1, ival |-> 2], [op |-> "set_dir", x |-> 2, ival |-> 2],
+               [op |-> "set_dir", x |-> 3, ival |-> 3], [op |-> "set_dir", x |-> 4, ival |-> 2],
+               [op |-> "set_dir", x |-> 5, ival |-> 2], [op |-> "set_dir", x |-> 6, ival |-> 3],
+               Cconnect(1, IPin(1)), Cconnect(2, IPin(2)), Cconnect(3, IPin(3)), Cconnect(4, IPin(4)), Cconnect(5, IPin(5)),
+               Cconnect(6, IPin(6)), Cconnect(7, IPin(7)), Cconnect(8, IPin(8)), Cconnect(9, IPin(9)), Cconnect(10, IPin(10)),
+               Csettopdef(1, 2), [op |-> "set_name", kind |-> "I", x |-> 1, val |-> "top"],
+               Cchild(2, "g", 1),
+               Cconnect(6, OPin(2, 1)), Cconnect(7, OPin(2, 2)), Cconnect(8, OPin(2, 3)), Cconnect(9, OPin(2, 4)),
+               Cconnect(10, OPin(2, 5)) >>
 VlogCands(s, which) ==
-    (IF "vlog_read" \in which THEN {[op |-> "vlog_read", n |-> 1, opts |-> o] : o \in RandomSubset(12, VlogOpts)} ELSE {})
+    (IF "vlog_read" \in which
+     THEN {[op |-> "vlog_read", n |-> 1, opts |-> o] : o \in (IF "vlog_all" \in which THEN VlogOpts ELSE RandomSubset(12, VlogOpts))}
+     ELSE {})
     \cup (IF "vlog_rt" \in which
-          THEN {[op |-> "seq", calls |-> <<[op |-> "vlog_read", n |-> 1, opts |-> o], [op |-> "vlog_rt", n |-> 2]>>] :
-                   o \in RandomSubset(4, VlogOpts)}
+          THEN {[op |-> "seq", calls |-> <<[op |-> "vlog_read", n |-> 1, opts |-> o],
+                                          [op |-> "vlog_rt", n |-> 2, copts |-> [defparam |-> dp]]>>] :
+                   <<o, dp>> \in RandomSubset(4, VlogOpts) \X BOOLEAN}
           ELSE {})
 VlogScope(q) ==
       [init |-> VlogInit, ops |-> {"b:child", "b:connect", "set_k:I", "set_k:C", "props:I"},
@@ -355,11 +406,16 @@ ScopeTable ==
     eblif_latch_rt |-> [EblifScope({"eblif_rt"}) EXCEPT !.init = EblifLatchInit, !.ops = {"b:connect"}],
     vlog_read |-> VlogScope({"vlog_read"}),
     vlog_rt |-> VlogScope({"vlog_rt"}),
+    vlog_decl |-> [VlogScope({"vlog_read", "vlog_rt", "vlog_all"}) EXCEPT !.init = VlogDeclInit, !.ops = {}, !.parents = {}],
     edif_names |-> [init |-> NameInit, ops |-> {}, max |-> MaxAll(0), names |-> {}, vals |-> {}, pos |-> {NoPos},
                     createN |-> {0}, queries |-> {"C17"}, walk |-> FALSE],
+    edif_reexport |-> [init |-> NameInit, ops |-> {}, max |-> MaxAll(0), names |-> {}, vals |-> {}, pos |-> {NoPos},
+                       createN |-> {0}, queries |-> {"C17re"}, walk |-> FALSE],
     edif_read |-> FmtScope({"edif_read"}),
     edif_rt |-> FmtScope({"edif_rt"}),
     edif_read1 |-> [FmtScope({"edif_read"}) EXCEPT !.init = FmtInit1],
+    edif_read_br |-> [FmtScope({"edif_read"}) EXCEPT !.init = FmtInitBr],
+    edif_rt_br |-> [FmtScope({"edif_rt"}) EXCEPT !.init = FmtInitBr],
     edif_rt1 |-> [FmtScope({"edif_rt"}) EXCEPT !.init = FmtInit1],
     edif_rt2 |-> [FmtScope({"edif_rt"}) EXCEPT !.init = FmtInit1 \o << Cchild(3, "u", 1), Cchild(4, "u", 3), Cchild(4, "v", 1) >>],
     edif_rt3 |-> [FmtScope({"edif_rt"}) EXCEPT !.init = FmtInit3, !.parents = {1, 4}],
@@ -369,9 +425,34 @@ ScopeTable ==
     query |-> QScope,
     clone_edit |-> CloneEditScope,
     clone |-> [XfScope EXCEPT !.queries = {"clone"}, !.names = {"a", U}, !.lookupVals = {"a", "leaf", "mid"},
-                              !.ops = @ \cup {"remove:LD", "props:I"}],
+                              !.ops = @ \cup {"remove:LD", "props:I"},
+                              \* bundle attributes off their defaults: a one-bit array port, an ascending scalar port, a based net
+                              !.init = @ \o << [op |-> "set_attr", kind |-> "P", x |-> 1, key |-> "scalar", val |-> FALSE],
+                                               [op |-> "set_attr", kind |-> "P", x |-> 2, key |-> "downto", val |-> FALSE],
+                                               [op |-> "set_attr", kind |-> "C", x |-> 2, key |-> "downto", val |-> FALSE],
+                                               [op |-> "set_lower", kind |-> "C", x |-> 1, ival |-> 2] >>],
+    \* the top instance is an ordinary child of a definition (not a stand-alone instance)
+    clone_top |-> [XfScope EXCEPT !.queries = {"clone"}, !.names = {"a"}, !.lookupVals = {},
+                                  !.init = SubSeq(XfInit, 1, Len(XfInit) - 1) \o << Cchild(3, "k", 2), Csettop(1, 1) >>],
     xf |-> XfScope,
+    \* the shared cell got a port in front AFTER it was instanced: the instance's pins are not in port order
+    xf_late |-> [XfScope EXCEPT !.init = XfInit \o << Cchild(3, "k", 2), Cnew("P", "z"),
+                                                      [op |-> "create", rel |-> "PQ", p |-> 6, name |-> "", n |-> 0],
+                                                      [op |-> "add", rel |-> "DP", p |-> 2, x |-> 6, pos |-> 0] >>,
+                                !.max = [N |-> 1, L |-> 3, D |-> 3, P |-> 6, C |-> 2, I |-> 5, Q |-> 7, W |-> 4]],
     xf_port |-> XfPortScope,
+    \* fixed hierarchy, mid instanced twice in top; mid got its port z in front after the first instance existed
+    xf_late_port |-> [XfPortScope EXCEPT
+                        !.init = << Cnew("N", "n"), Ccreate("NL", 1, "work", 0),
+                                    Ccreate("LD", 1, "leaf", 0), Ccreate("LD", 1, "mid", 0), Ccreate("LD", 1, "top", 0),
+                                    Ccreate("DP", 1, "i", 1), Ccreate("DP", 1, "o", 1),
+                                    Ccreate("DP", 2, "a", 1), Ccreate("DP", 2, "b", 1), Ccreate("DC", 2, "n", 1),
+                                    Ccreate("DP", 3, "t", 1), Ccreate("DC", 3, "m", 3),
+                                    Cchild(2, "l", 1), Cchild(3, "m", 2),
+                                    Cnew("P", "z"), [op |-> "create", rel |-> "PQ", p |-> 6, name |-> "", n |-> 0],
+                                    [op |-> "add", rel |-> "DP", p |-> 2, x |-> 6, pos |-> 0],
+                                    Cchild(3, "m2", 2), Csettopdef(1, 3) >>,
+                        !.max = [N |-> 1, L |-> 1, D |-> 3, P |-> 6, C |-> 2, I |-> 4, Q |-> 6, W |-> 4]],
     hier11 |-> HierScope({"C11"}, {}),
     hier12 |-> HierScope({"C12"}, {}),
     hier_walk |-> [HierScope({"walkq"}, {"set_name:I", "set_name:C", "set_name:P", "del_name:I", "set_attr:P",
@@ -435,6 +516,7 @@ ActionProps(pre, c, out, post) ==
     /\ C14_RefusedUnchanged(pre, out, post)
     /\ C10_RefusalExact(pre, c, out)
     /\ C07_Independent(pre, c, post)
+    /\ (c.op \in IROps => C19_Suffices(pre, c))      \* the announcement design suffices for an exact mirror
 
 Queries == IF "queries" \in DOMAIN Scope THEN Scope.queries ELSE {}
 StepCands(s) == Cands(s, Scope) \cup (IF "parents" \in DOMAIN Scope THEN BuildCands(s, Scope) ELSE {})
@@ -447,6 +529,7 @@ QCands(s) ==
     \cup (IF "C20" \in Queries THEN CompareCands(s) ELSE {})
     \cup FmtCands(s, Queries)
     \cup (IF "C17" \in Queries THEN NameCands(s) ELSE {})
+    \cup (IF "C17re" \in Queries THEN ReexportCands(s) ELSE {})
     \cup VlogCands(s, Queries)
     \cup EblifCands(s, Queries)
     \cup ComposeCands(s, Queries)
@@ -482,12 +565,12 @@ Inv_C10_LegalIds    == C10_LegalIds(ir)
 Inv_C08_Model ==
     ("xf" \in Queries) =>
         LET u == Uniquify(ir, 1) IN
-        /\ C08_Unique(u, 1) /\ C08_ElabPreserved(ir, u, 1) /\ C08_WF(u) /\ C08_FreshNames(ir, u, 1)
+        /\ C08_Unique(u, 1) /\ C08_ElabPreserved(ir, u, 1) /\ C08_WF(ir, u) /\ C08_FreshNames(ir, u, 1)
         /\ Uniquify(u, 1) = u
 Inv_C09_Model ==
     ("xf" \in Queries) =>
         LET u == Uniquify(ir, 1)  f == Flatten(u, 1) IN
-        /\ C09_OnlyLeaves(f, 1) /\ C09_LeafBijection(u, f, 1) /\ C09_NetsPreserved(u, f, 1) /\ C09_WF(f)
+        /\ C09_OnlyLeaves(f, 1) /\ C09_LeafBijection(u, f, 1) /\ C09_NetsPreserved(u, f, 1) /\ C09_WF(u, f)
 (* the clone MODEL of Clone.tla satisfies the C07 clauses for every element of every design *)
 Inv_C07_Model ==
     ("clone" \in Queries) =>
